@@ -56,7 +56,7 @@ Print Assumptions C05_chain_start.
    theories/Model_Quadrature.v (the PrimFloat instance of the same definitions is run bit for bit against the real
    methods on every run); theorems over R. *)
 From Coq Require Import Reals.
-From HT Require Import Field Model_Quadrature Proof_Quadrature.
+From HT Require Import Field Model_Quadrature Proof_Quadrature Model_Equalise Proof_Equalise.
 Local Open Scope R_scope.
 
 (* calcDistance returns the length of the polygon through the fine points: one entry per point, 0 at the first, and each
@@ -131,8 +131,33 @@ Theorem C05_placed_point_distance_round_trip : forall (pos : list (R * R)) (dist
   get_distance Rops pos dist p = nth lo dist 0 + t * (nth (S lo) dist 0 - nth lo dist 0).
 Proof. exact placed_point_distance_round_trip. Qed.
 
+(* FineContour.equaliseSpacing (theories/Model_Equalise.v; `refine` is a parameter -- the contract -- and the real method is run
+   with refine stubbed to the identity in the correspondence): in ANY arithmetic (binary64 with nan / inf included) the
+   iteration stops after at most finecontour_maxits rounds ... *)
+Theorem C05_equal_spacing_iteration_terminates : forall {T} (O : ops T) refine atol damping maxits nfine el si ei extra pos err,
+  eq_loop O refine atol damping maxits nfine el si ei (S maxits + extra) 1 pos err =
+  eq_loop O refine atol damping maxits nfine el si ei (S maxits) 1 pos err.
+Proof. intros. apply equalise_fuel_enough. Qed.
+
+(* ... it stops WITHOUT the warning only when the spacing passes the tolerance test of the code ... *)
+Theorem C05_equal_spacing_accepted_only_within_tolerance : forall {T} (O : ops T) refine atol damping maxits nfine el si ei fuel count pos,
+  snd (eq_loop O refine atol damping maxits nfine el si ei fuel count pos (ds_error O (calc_distance O pos))) = false ->
+  olt O atol (ds_error O (calc_distance O (fst (eq_loop O refine atol damping maxits nfine el si ei fuel count pos (ds_error O (calc_distance O pos)))))) = false.
+Proof. intros. apply eq_loop_sound. assumption. Qed.
+
+(* ... and, if refine leaves the number of points and the points at startInd and endInd alone (skip_endpoints=True), the whole
+   iteration never moves those two points: the fine contour keeps passing through the ends of its parent contour *)
+Theorem C05_equal_spacing_keeps_the_ends : forall {T} (O : ops T) refine atol damping maxits nfine el si ei,
+  (forall p, length (refine p) = length p) -> (forall p d, nth si (refine p) d = nth si p d) -> (forall p d, nth ei (refine p) d = nth ei p d) ->
+  forall (pos : list (T * T)) d, (si < length pos)%nat -> (ei < length pos)%nat ->
+  length (fst (equalise O refine atol damping maxits nfine el si ei pos)) = length pos /\
+  nth si (fst (equalise O refine atol damping maxits nfine el si ei pos)) d = nth si pos d /\
+  nth ei (fst (equalise O refine atol damping maxits nfine el si ei pos)) d = nth ei pos d.
+Proof. intros. apply equalise_keeps_ends; assumption. Qed.
+
 Print Assumptions C05_distance_is_polygon_length.
 Print Assumptions C05_distance_bounds_chord.
 Print Assumptions C05_reverse_keeps_distance.
 Print Assumptions C05_point_distance_at_fine_point.
 Print Assumptions C05_placed_point_on_polygon.
+Print Assumptions C05_equal_spacing_keeps_the_ends.
